@@ -130,6 +130,15 @@ def main(tier, seed):
         "model_impl_disagreements": len(diffs),
     })
     k13 = [x for x in vlib.load_known() if x.get("id") == "F13" and x.get("status") == "known"]
+    d13 = p_c03.run_batch(vlib.HARNESS, "cexec13", ["norace", "race"])
+    chk.cov["executor_drop_witness"] = d13
+    if "FUTURE-DROPPED" not in d13[0]:
+        bad.append(("executor drop (no race)", d13[0], ["after the executor was dropped its pending future was not dropped"]))
+    elif "FUTURE-LEAKED" in d13[1]:
+        if k13:
+            chk.known("F13", "F13: " + k13[0]["what"])
+        else:
+            bad.append(("executor drop racing a wake", d13[1], ["a future is never dropped when Executor::drop races a wake (F13 not listed as known)"]))
     if bad:
         c, i, fs = min(bad, key=lambda x: len(x[0]))
         chk.violation("oracle", "C10 violated on the real code: %s\n%s\n# executed steps and observations: %s\n(%d failing cases)" % (fs[0], c, i, len(bad)))
